@@ -6,7 +6,7 @@ import XsdataModel.Proofs.MapInv
 import XsdataModel.Proofs.TreeWriter
 
 namespace Proofs.Flush
-open Py Xs.Ns Xs.Sax Xs.Writer Spec.XmlNs Proofs.MapInv
+open Py Xs.Ns Xs.Sax Xs.Writer Spec.XmlNs Proofs.MapInv Spec.Hyps
 
 /-- `_current_context` after a run of `startPrefixMapping` calls -/
 def applyCur (cur : List (Str × Pfx)) : List (Pfx × Str) → List (Str × Pfx)
@@ -180,7 +180,7 @@ theorem nodupKeys_of_NoDupKeys {α β : Type} [DecidableEq α] (m : List (α × 
 end Proofs.Flush
 
 namespace Proofs.Flush
-open Py Xs.Ns Xs.Sax Xs.Writer Spec.XmlNs Proofs.MapInv
+open Py Xs.Ns Xs.Sax Xs.Writer Spec.XmlNs Proofs.MapInv Spec.Hyps
 
 /-! ### `reset_default_namespace` -/
 
